@@ -682,8 +682,16 @@ def random_mutator(rng: PlanRng, sym: Sym, meta, first=False, allow_reject=False
 
     def m_reject():
         # a registration the library rejects (raises): nothing may have been registered
-        c = rng.choice(["bounds_mixed", "sysadapt_len", "system_len"] if (k or 0) >= 2
-                       else ["sysadapt_len", "system_len"])
+        big = [n for n, kk in meta["n_src"].items() if kk >= 2 and not n.startswith("SF")]
+        kinds_ = ["sysadapt_len", "system_len"] + (["bounds_mixed"] if (k or 0) >= 2 else []) \
+            + (["system_bounds_mixed"] if big else [])
+        c = rng.choice(kinds_)
+        if c == "system_bounds_mixed":
+            # valid sources, rejected only when the bounds are validated: by then the call has
+            # already looked at (and possibly stored) the new sources
+            src = rng.choice(big)
+            return {"m": "register_system", "sources": src, "domain": None, "lb": None,
+                    "ub": f"ubmix{meta['n_src'][src]}", "reject": True}
         if c == "bounds_mixed":
             return {"m": "register_bounds", "lb": rng.choice([None, "lbs", f"lb{k}a"]),
                     "ub": f"ubmix{k}", "reject": True}
